@@ -9,7 +9,7 @@ and counts are concrete per instance, contents symbolic: DESIGN.md 2.2).  `tier`
 """
 import subprocess
 
-ROTATE_PER_RUN = 2
+ROTATE_PER_RUN = 6
 
 
 def repo_rev():
@@ -58,6 +58,222 @@ PROPS["C03"] = {
         I("c03::c03_witness", bounds="reachability twin", expect_fail=True),
     ],
     "jobs": {"quick": 6, "thorough": 6},
+}
+
+
+# ------------------------------------------------------------------------------------------------
+PROPS["C19"] = {
+    "functions_encoded": [
+        "cfgrammar::NewlineCache::new", "NewlineCache::feed", "NewlineCache::feed_len",
+        "NewlineCache::byte_to_line_num", "NewlineCache::line_num_to_byte", "NewlineCache::byte_to_line_byte",
+        "NewlineCache::byte_to_line_num_and_col_num", "NewlineCache::span_line_bytes",
+    ],
+    "bounds": {
+        "quick": "query harnesses: ANY cache state satisfying the representation invariant with exactly k lines, "
+                 "k = 1..4 (one instance each), every line start and the trailing length a free 40-bit value, "
+                 "offset / span free 64-bit values; feed: pre-state of k = 1..2 lines (free offsets) + chunk of "
+                 "n = 1..2 free characters from {a, LF, CR, e-acute (2 bytes), euro (3 bytes)}; columns: texts of "
+                 "2..3 free characters from {a, LF, CR, e-acute}, fed in two pieces at a free split, free "
+                 "character-boundary offset; unwind = loop bound derived per instance",
+        "thorough": "as quick plus k = 5..6 query states, feed with k = 3 and n = 3, column texts of 4 characters "
+                    "and of 3 characters including a 3-byte character",
+    },
+    "outside_claim": [
+        "query states with more than 6 lines (feed itself is covered inductively for any number of lines)",
+        "texts longer than 4 characters for columns",
+        "NonStreamingLexer::{line_col, span_lines_str} (slicing on top, needs a regex-built lexer)",
+        "LexParseError::pp padding (float log10, format!)",
+        "offsets >= 2^40",
+    ],
+    "assumptions": [
+        "representation invariant of NewlineCache: newlines[0] == 0, strictly increasing, values < 2^40",
+        "span start <= end <= length of the text fed",
+        "span end: end of the line containing position `end`, or of the line containing byte `end-1` -- either accepted",
+        "column at the LF of a CR LF pair: the CR's column or one more -- either accepted",
+        "Vec capacity pre-sized in the harness (no reallocation inside feed)",
+        "trusted: Kani MIR->goto translation, CBMC, CaDiCaL, hooks verif_from_raw / verif_raw",
+    ],
+    "instances": [
+        I("c19::c19_line_k1", bounds="1 line", no_cover=["last line start"]),
+        I("c19::c19_line_k2", bounds="2 lines"),
+        I("c19::c19_line_k3", bounds="3 lines"),
+        I("c19::c19_line_k4", bounds="4 lines"),
+        I("c19::c19_line_k5", "thorough", bounds="5 lines"),
+        I("c19::c19_line_k6", "thorough", bounds="6 lines"),
+        I("c19::c19_line_witness", bounds="reachability twin, 3 lines", expect_fail=True),
+        I("c19::c19_span_k1", bounds="1 line", no_cover=["line start"]),
+        I("c19::c19_span_k2", bounds="2 lines", no_cover=["line start"]),
+        I("c19::c19_span_k3", bounds="3 lines", no_cover=["inner line start"]),
+        I("c19::c19_span_k4", bounds="4 lines"),
+        I("c19::c19_span_k5", "thorough", bounds="5 lines"),
+        I("c19::c19_span_k6", "thorough", bounds="6 lines"),
+        I("c19::c19_feed_k1_w1", bounds="1 line + widths [1]"),
+        I("c19::c19_feed_k2_w11", bounds="2 lines + widths [1,1]"),
+        I("c19::c19_feed_k1_w111", bounds="1 line + widths [1,1,1]"),
+        I("c19::c19_feed_k2_w21", bounds="2 lines + widths [2,1]"),
+        I("c19::c19_feed_k2_w13", bounds="2 lines + widths [1,3]"),
+        I("c19::c19_feed_k3_w141", "thorough", bounds="3 lines + widths [1,4,1]"),
+        I("c19::c19_feed_k3_w1111", "thorough", bounds="3 lines + widths [1,1,1,1]"),
+        I("c19::c19_feed_k2_w1211", "thorough", bounds="2 lines + widths [1,2,1,1]"),
+        I("c19::c19_col_w11", bounds="widths [1,1]"),
+        I("c19::c19_col_w111", bounds="widths [1,1,1]", est_gb=5),
+        I("c19::c19_col_w121", "thorough", bounds="widths [1,2,1]", no_cover=["CR LF"], est_gb=8),
+        I("c19::c19_col_w1111", "thorough", bounds="widths [1,1,1,1]", est_gb=8),
+    ],
+    "jobs": {"quick": 14, "thorough": 10},
+}
+
+
+# ------------------------------------------------------------------------------------------------
+import json as _json, os as _os
+_SHAPES = _json.load(open(_os.path.join(_os.path.dirname(_os.path.abspath(__file__)), "shapes.json")))
+# quick tier: the shapes of G(2,3,2,3) with the most symbolic slots and those mixing empty productions
+_QUICK_SHAPES = {"g23_a22_b2", "g23_a21_b2", "g23_a20_b2", "g23_a2_b22", "g23_a2_b21", "g23_a2_b20",
+                 "g23_a22_b0", "g23_a1_b20", "g23_a21_b1", "g23_a1_b21"}
+
+
+def _c17_instances():
+    out = []
+    for sh in _SHAPES:
+        tag = sh["tag"]
+        b = (f"domain {sh['domain']}: {sh['rules']} rules incl. start, {sh['tokens']} tokens incl. EOF, productions "
+             f"rule={sh['rule']} len={sh['len']} ({sh['slots']} symbolic slots), token costs 1..3, unwind {sh['unwind']}")
+        if tag in _QUICK_SHAPES:
+            tier = "quick"
+        elif sh["domain"] == "g23":
+            tier = "rotate"
+        else:
+            tier = "thorough"
+        no_cover = []
+        for kind, term in (("path", ["has_path"]), ("min", ["rule_min_costs"]), ("max", ["rule_max_costs", "has_path"]),
+                           ("term", ["rule_min_costs", "rule_max_costs", "has_path"])):
+            out.append(I(f"c17::c17_{kind}_{tag}", tier, bounds=b, termination=term, shape=tag, kind=kind))
+    return out
+
+
+PROPS["C17"] = {
+    "functions_encoded": [
+        "cfgrammar::yacc::YaccGrammar::has_path", "cfgrammar::yacc::grammar::rule_min_costs",
+        "cfgrammar::yacc::grammar::rule_max_costs", "SentenceGenerator::{new, min_sentence_cost, max_sentence_cost}",
+        "YaccGrammar::{iter_rules, rule_to_prods, prod, prod_to_rule, rules_len}",
+    ],
+    "bounds": {
+        "quick": "symbolic grammar domain G(2,3,2,3): 2 user rules + start rule, 3 user productions of length <= 2, "
+                 "2 user tokens + EOF; the 10 shapes with the most symbolic slots every run plus 2 further shapes "
+                 "per run chosen by VERIF_SEED (36 shapes in all); per shape EVERY symbol slot (token or user rule), "
+                 "every token cost in 1..3 and the candidate fixed point X are solver variables; unwind = derived "
+                 "bound (rules + 2 rounds of each fixed-point loop)",
+        "thorough": "all 36 shapes of G(2,3,2,3) plus 7 hand-picked shapes of G(3,4,3,3) (3 user rules, 4 user "
+                    "productions of length <= 3)",
+    },
+    "outside_claim": [
+        "FIRST / nullable / FOLLOW (YaccFirsts::new, YaccFollows::new): Vob + Box<dyn Iterator> over symbolic "
+        "indices measured out of reach at this domain (DESIGN 4, probes 11-13, 21)",
+        "min_sentence / min_sentences (sentence construction)",
+        "grammars with more rules / productions / longer productions than the domain; token costs > 3",
+        "maximum cost of rules on unit-only cycles: 'recursive' and 'unbounded' differ there; None is accepted "
+        "for every rule that reaches a reference cycle",
+        "unproductive rules in the minimum-cost harness (assumed away by a symbolic productivity witness)",
+    ],
+    "assumptions": [
+        "min cost: every rule productive (symbolic rank witness)", "token costs in 1..=3",
+        "grammar built through the hook YaccGrammar::verif_from_parts (the object new_from_ast_with_validity_info "
+        "produces: rule 0 = start rule, last token = EOF)",
+        "trusted: Kani MIR->goto translation, CBMC, CaDiCaL, the oracles (closed-set / sub-solution predicates, "
+        "Warshall closure)",
+    ],
+    "instances": _c17_instances(),
+    "jobs": {"quick": 14, "thorough": 14},
+}
+
+
+# ------------------------------------------------------------------------------------------------
+_SCANNERS = ["parse_ws", "parse_string", "parse_action", "parse_to_eol", "parse_to_single_colon", "parse_int"]
+_STUBS = ["std::hash::RandomState::new -> fixed keys (YaccParser::new builds an empty AST with hash maps; no "
+          "claimed property depends on the hash seed)"]
+
+PROPS["C12"] = {
+    "functions_encoded": ["cfgrammar::yacc::parser::YaccParser::{new, parse_ws, parse_string, parse_action, "
+                          "parse_to_eol, parse_to_single_colon, parse_int::<usize>, lookahead_is, mk_error}",
+                          "core::str::<impl str>::parse::<usize>"],
+    "bounds": {
+        "quick": "texts of a concrete prefix (none, '/*', '//', a quote, '{') followed by 3 characters; each "
+                 "character is a free choice from the scanner's alphabet (every character its branches test plus "
+                 "a neutral one) or, in the multi-byte instances, a fixed 2-/3-byte character; start offset a "
+                 "free character boundary; newline flag free; parse_int additionally on 20 free decimal digits; "
+                 "unwind = bytes + 2",
+        "thorough": "as quick plus 4 free characters after the prefix, 5 free characters for parse_ws, 21 digits",
+    },
+    "outside_claim": [
+        "the three top-level parsers (Yacc grammar, lex specification, %grmtools section): regex at every token "
+        "(DESIGN 5); only the six regex-free byte-offset scanners of the Yacc parser are claimed",
+        "texts longer than the instance sizes; characters outside the instance alphabets",
+    ],
+    "stubs": _STUBS,
+    "assumptions": [
+        "parse_action is entered at a '{' and parse_string results are checked from any boundary (their callers' "
+        "preconditions)", "start offset on a character boundary (the parser's documented cursor invariant)",
+        "trusted: Kani MIR->goto translation, CBMC, CaDiCaL, hooks yacc::parser::verif::*",
+    ],
+    "instances": [
+        I("c12::c12_ws_f3", bounds="3 free chars", termination=_SCANNERS, est_gb=10),
+        I("c12::c12_ws_block3", bounds="'/*' + 3 free chars", termination=_SCANNERS, est_gb=10),
+        I("c12::c12_ws_line3", bounds="'//' + 3 free chars", termination=_SCANNERS, est_gb=10),
+        I("c12::c12_ws_mb", bounds="widths [1,2,1,1]", termination=_SCANNERS, est_gb=10),
+        I("c12::c12_ws_f4", "thorough", bounds="4 free chars", termination=_SCANNERS, est_gb=10),
+        I("c12::c12_ws_block4", "thorough", bounds="'/*' + 4 free chars", termination=_SCANNERS, est_gb=10),
+        I("c12::c12_ws_f5", "thorough", bounds="5 free chars", termination=_SCANNERS, est_gb=10),
+        I("c12::c12_string_q3", bounds="quote + 3 free chars", termination=_SCANNERS),
+        I("c12::c12_string_f3", bounds="3 free chars, any start", termination=_SCANNERS),
+        I("c12::c12_string_mb", bounds="quote + widths [1,2,1]", termination=_SCANNERS),
+        I("c12::c12_string_q4", "thorough", bounds="quote + 4 free chars", termination=_SCANNERS),
+        I("c12::c12_action_b3", bounds="'{' + 3 free chars", termination=_SCANNERS),
+        I("c12::c12_action_mb", bounds="'{' + widths [1,3,1]", termination=_SCANNERS),
+        I("c12::c12_action_b4", "thorough", bounds="'{' + 4 free chars", termination=_SCANNERS),
+        I("c12::c12_eol_f3", bounds="widths [1,2,1]", termination=_SCANNERS),
+        I("c12::c12_eol_f4", "thorough", bounds="4 free chars", termination=_SCANNERS),
+        I("c12::c12_colon_f3", bounds="3 free chars", termination=_SCANNERS),
+        I("c12::c12_colon_mb", bounds="widths [1,2,1,1]", termination=_SCANNERS),
+        I("c12::c12_colon_f4", "thorough", bounds="4 free chars", termination=_SCANNERS),
+        I("c12::c12_int_f3", bounds="3 free chars", termination=_SCANNERS),
+        I("c12::c12_int_mb", bounds="widths [1,1,2]", termination=_SCANNERS),
+        I("c12::c12_int_d20", bounds="20 free digits", termination=_SCANNERS),
+        I("c12::c12_int_d21", "thorough", bounds="21 free digits", termination=_SCANNERS),
+    ],
+    "jobs": {"quick": 14, "thorough": 12},
+}
+
+PROPS["C10"] = {
+    "functions_encoded": ["cfgrammar::yacc::parser::YaccParser::{new, parse_ws, mk_error}"],
+    "bounds": {
+        "quick": "texts of a concrete prefix (none, '/*', '//') followed by 2..3 characters, each a free choice "
+                 "from {space, LF, '/', '*', 'a'} (3-character instance also tab and CR) or a fixed 3-byte "
+                 "character; start offset a free character boundary; newline flag free; unwind = bytes + 2",
+        "thorough": "as quick plus 4 free characters after the prefix and 5 free characters without prefix",
+    },
+    "outside_claim": [
+        "everything in C10 except the layout clause: names, tokens, declarations, precedences, numbering, spans "
+        "(regex + string-keyed IndexMap/HashMap, DESIGN 5)",
+        "layout longer than the instance sizes",
+    ],
+    "stubs": _STUBS,
+    "assumptions": [
+        "reference skipper written from the Yacc lexical conventions (blanks; newlines iff allowed; // to end of "
+        "line; /* to the next */; a lone / ends the skip)",
+        "trusted: Kani MIR->goto translation, CBMC, CaDiCaL, hook yacc::parser::verif::parse_ws",
+    ],
+    "instances": [
+        I("c12::c10_ws_f3", bounds="3 free chars over 7-letter alphabet", termination=_SCANNERS, est_gb=10),
+        I("c12::c10_ws_block2", bounds="'/*' + 2 free chars", termination=_SCANNERS, est_gb=10),
+        I("c12::c10_ws_block3", bounds="'/*' + 3 free chars", termination=_SCANNERS, est_gb=10),
+        I("c12::c10_ws_line3", bounds="'//' + 3 free chars", termination=_SCANNERS, est_gb=10),
+        I("c12::c10_ws_mb", bounds="widths [1,1,3,1]", termination=_SCANNERS, est_gb=10),
+        I("c12::c10_ws_witness", bounds="reachability twin", expect_fail=True, est_gb=10),
+        I("c12::c10_ws_f4", "thorough", bounds="4 free chars", termination=_SCANNERS, est_gb=10),
+        I("c12::c10_ws_block4", "thorough", bounds="'/*' + 4 free chars", termination=_SCANNERS, est_gb=10),
+        I("c12::c10_ws_f5", "thorough", bounds="5 free chars", termination=_SCANNERS, est_gb=10),
+    ],
+    "jobs": {"quick": 8, "thorough": 9},
 }
 
 
